@@ -487,7 +487,10 @@ def race_harness(prop, tier, seed, cov, log):
     import concurrent.futures as cf
     n = 3 if tier == 'quick' else 48
     per = 1 if tier == 'quick' else 4
-    jobs = [(seed * 1000 + k, min(per, n - k)) for k in range(0, n, per)]
+    jobs = [(seed * 1000 + k, min(per, n - k), 'concurrent') for k in range(0, n, per)]
+    # and a few writers and readers of the very same items (components, poses, actions, floors, the state handed to a newcomer)
+    m = 2 if tier == 'quick' else 24
+    jobs += [(seed * 1000 + k, min(per, m - k), 'shared') for k in range(0, m, per)]
     import hashlib
     hb = hashlib.sha1()
     with open(f'{L.BIN}/wire-race', 'rb') as fh:
@@ -497,14 +500,14 @@ def race_harness(prop, tier, seed, cov, log):
     # which racing accesses belong to the property: C09 owns them all, the others the state they speak about
     scope = RACE_SCOPE.get(prop)
     def run(job):
-        sd, cnt = job
+        sd, cnt, scen = job
         # the runs are the same for every property that looks at them: kept, keyed by the executable and the arguments
-        cf_ = f'{L.CACHE}/race/{binsig[:20]}-{sd}-{cnt}.json'
+        cf_ = f'{L.CACHE}/race/{binsig[:20]}-{scen}-{sd}-{cnt}.json'
         if os.path.exists(cf_):
             c = json.load(open(cf_))
             return job, c['rc'], c['out'], c['err']
         try:
-            r = subprocess.run([f'{L.BIN}/wire-race', '-scenario', 'concurrent', '-seed', str(sd), '-n', str(cnt)], capture_output=True,
+            r = subprocess.run([f'{L.BIN}/wire-race', '-scenario', scen, '-seed', str(sd), '-n', str(cnt)], capture_output=True,
                                text=True, env=dict(L.GOENV, GORACE='halt_on_error=0'), timeout=120 + 60 * cnt)
             json.dump({'rc': r.returncode, 'out': r.stdout, 'err': r.stderr}, open(cf_ + '.tmp', 'w')); os.replace(cf_ + '.tmp', cf_)
             return job, r.returncode, r.stdout, r.stderr
@@ -519,7 +522,7 @@ def race_harness(prop, tier, seed, cov, log):
         if k:
             print(f'KNOWN-FINDING: property={prop} {k[0]["what"]} [{cause}]'); return
         path = L.write_replay(prop, cause, {'property': prop, 'cause': cause, 'seed': seed, 'tier': tier,
-                              'replay': f'GORACE=halt_on_error=0 .cache/bin/wire-race -scenario concurrent -seed {job[0]} -n {job[1]}'}, [detail[:6000]])
+                              'replay': f'GORACE=halt_on_error=0 .cache/bin/wire-race -scenario {job[2]} -seed {job[0]} -n {job[1]}'}, [detail[:6000]])
         viol.append((path, ''))
     with cf.ThreadPoolExecutor(max_workers=4) as ex:
         for job, rc, out, err in ex.map(run, jobs):
